@@ -10,7 +10,14 @@ CFG = dict(
                "from the Go source) lies in [0,n) whenever it is computed, size limits precede decoding; node-record entry decoders (network/records/entries.go, reached from every discovered peer's ENR): "
                "C08_domain_type_entry_total / C08_subnets_entry_total — for EVERY entry value (byte string of any length, non-string item) the outcome is an error "
                "or a value, never a panic (short domain type => error, >= 4 bytes => first four; subnets: always 128 entries), tie C08_tie_record_entry_decoders "
-               "(length guard precedes the slice-to-array conversion), regression lemma on the pre-repair decoder (every string shorter than 4 bytes panics). PARTIAL: the byte-level decoders (fastssz, JSON, base64, "
+               "(length guard precedes the slice-to-array conversion), regression lemma on the pre-repair decoder (every string shorter than 4 bytes panics). BYTE LEVEL (Ssv/Props/C08Ssz.lean): the SSZ decoders that run on attacker bytes — the fastssz-generated UnmarshalSSZ of SSVMessage, qbft.Message, qbft.SignedMessage, "
+               "PartialSignatureMessage(s), SignedPartialSignatureMessage and the fastssz helpers DecodeDynamicLength / UnmarshalDynamic / safeReadOffset / DivideInt2, "
+               "modelled with EVERY Go slice expression and fixed-width read a partial operation that can panic — return a value or an error for EVERY byte string, never a panic "
+               "(C08_ssz_*_never_panics, by induction over the dynamic-list loop for any claimed length and any offsets; UnmarshalDynamic alone DOES panic on a short source and is "
+               "safe only behind DecodeDynamicLength: both halves proved); an accepted message obeys the size limits (<= 13 signers / justifications / partial signatures, 56-byte ids, "
+               "item <= 65536, full data <= 5243144, data <= 6291829); round trips decode(encode m) = m for every well-formed SSVMessage and SignedPartialSignatureMessage; tied by the "
+               "regenerated literal/operator lists of the generated decoders and helpers (C08_tie_ssz_*) and engine `ssz` (real commons.DecodeNetworkMsg / queue.DecodeSSVMessage / "
+               "spec Decode vs model on valid encodings and targeted malformations, panic oracle). PARTIAL: the remaining byte-level decoders (JSON, base64, RLP, "
                "libp2p envelopes), hanging and unbounded allocation are not modelled; they are exercised by a malformed-byte stream (fuzzing) through "
                "ValidatePubsubMessage, DecodeSignedSSVMessage, DecodeNetworkMsg, DecodeSSVMessage, SignedNodeInfo/NodeInfo UnmarshalRecord+Consume, Subnets.FromString, "
                "each call under recover with a timeout and an allocation ceiling.",
@@ -18,10 +25,12 @@ CFG = dict(
                "(fields read through the real decoders), the model of Go time.Time / uint64 arithmetic (validated by the differential run incl. extreme clocks), "
                "share well-formedness (non-empty committee: guaranteed by the registry, property C11).",
     technique="Lean 4 proof over an executable model with explicit panic outcomes + regenerated guard-order / panic-inventory / literal facts and translated kernels "
-              "+ differential run against the real validator + decoder fuzzing",
-    lean=["Ssv.Props.C08"],
+              "+ differential run against the real validator + Lean model of the SSZ decoders with explicit slice-bounds panics (never-panics theorems for all byte strings) diffed against the real decoders + decoder fuzzing",
+    lean=["Ssv.Props.C08", "Ssv.Props.C08Ssz"],
     engines=[dict(harness="validation", driver="m_validation", args=["-mode", "c08"], case_delim="reset",
-                  n_quick=200, n_thorough=4000, thorough_seeds=2, n_search=600, search_seeds=3)],
+                  n_quick=200, n_thorough=4000, thorough_seeds=2, n_search=600, search_seeds=3),
+             # byte-level SSZ decoders of the validation path: the real decoders vs the Lean model of the generated code, panic oracle
+             dict(harness="ssz", driver="m_ssz", n_quick=6000, n_thorough=300000, thorough_seeds=3, n_search=60000, search_seeds=2)],
     rule="per case: a fresh real validator, a prefix of honest messages captured from real multi-operator QBFT runs (accepted), then structurally valid consensus / "
          "partial-signature messages whose every field is drawn from extreme sets (0, 1, 2^31, 2^32, 2^62, 2^63-1, 2^63, 2^64-1, near-current), known / unknown / "
          "liquidated / metadata-less / exited / pending validators, invalid keys, all roles incl. invalid, clocks from 1969 to the int64 limit; direct kernel ops "
@@ -41,8 +50,14 @@ CFG = dict(
          "node does not serve — distinct well-formed unregistered BLS keys x 7 roles with the right domain, liquidated / metadata-less / exited validators, foreign "
          "domain, invalid roles, malformed keys, every 8th through the pubsub entry point — and, on EVERY call of every case, an oracle on the validator's internals "
          "(shim: sizes of validationLocks and of the consensus-state index before/after): a call for an unserved id leaves no per-id state "
-         "(C08/unserved-id-leaves-per-id-state); distinct = (input kind, outcome tag, fresh/with-history)",
-    trusted_base=["model of go1.23 time.Time (Unix/Add/Sub/Before/After with int64 wrap and saturation) and beacon.Network slot arithmetic (uint64 wrap)",
+         "(C08/unserved-id-leaves-per-id-state); distinct = (input kind, outcome tag, fresh/with-history); engine ssz: valid encodings of random SSVMessage / qbft.Message / SignedMessage / PartialSignatureMessage(s) / "
+         "SignedPartialSignatureMessage values from the real MarshalSSZ (extreme integers, 0..13 justifications / signers / partial signatures, items at the 65536 limit), each then "
+         "mutated (truncation at field boundaries, every offset word set to 0 / fixed-1 / fixed / size-1 / size / size+1 / +-1 / +4 / 2^31 / 2^32-1, inner offset-table words, "
+         "offset words copied onto each other, bit flips, appends, splices, cuts, random and constant strings of critical lengths, 20 % doubly mutated), sizes exactly at and one beyond "
+         "every limit (6291829 / 5243144 / 65536 bytes, 13 / 14 entries), decoded by the REAL commons.DecodeNetworkMsg / queue.DecodeSSVMessage / spec Decode and by the model; "
+         "observation = err | every decoded field; encoder ops tie encodeSSV / encodeSPSig to the real Encode; oracle: no decoder call panics (C08/ssz-decoder-panic:<target>)",
+    trusted_base=["model of Go slice expressions / binary.LittleEndian reads in Ssv/Model/Ssz.lean (bounds checked against len; Go checks cap >= len) and the hand transcription of the generated decoders (pinned by literal lists + differential run)",
+                  "model of go1.23 time.Time (Unix/Add/Sub/Before/After with int64 wrap and saturation) and beacon.Network slot arithmetic (uint64 wrap)",
                   "instance.IsProposalJustification, SSZ/JSON decoding, BLS key deserialisation, RSA verification are abstract inputs computed by the harness from the real functions"],
     assumptions=["stored shares have a non-empty committee of fewer than 2^31 operators (registry invariant, C11)",
                  "network constants: slot duration >= 2 s, slots per epoch > 0 (compile-time configuration)"],
